@@ -8,6 +8,7 @@ Correspondence: the `tracker_announce` hook (Client::connect + announce_exchange
 module; every datagram the tracker receives is read by an independent BEP 15 reader (below) and must equal
 the extracted model's serialisation for the same field values; the outcome (peers / reported failure, number
 of sends) is compared with the extracted `Tracker.session`, and judged by the direct oracle in `judge`."""
+import zlib
 import hashlib, ipaddress, json, os, re, select, shutil, socket, struct, subprocess, tempfile, threading, time
 import lib
 
@@ -800,7 +801,10 @@ def run_e2e_case(ctx, ec, tmp):
             tr = Tracker(sp["v6"], sp["s1"], sp["s2"])
             trackers.append(tr)
             sp["_tr"] = tr
-            urls.append("udp://%s/announce" % tr.addr)
+            # the request string of the tracker URL varies (a passkey, a key in the path, a trailing separator, none at all): BEP 15's
+            # announce request is 98 bytes whatever the URL says (added after seeded change C12-17: BEP 41 URL data appended)
+            urls.append("udp://%s%s" % (tr.addr, ("/announce", "/announce", "/announce?passkey=0123456789abcdef", "/k3y/announce", "/announce/", "",
+                                                  "/", "/scrape", "/a%20b/announce?x=1&y=2")[(len(urls) + zlib.crc32(ec["name"].encode())) % 9]))
         elif sp["t"] in ("http", "https", "wss"):
             dec = Tracker(False, [], [])     # listens on UDP at the port named by the non-UDP URL: must stay silent
             decoys.append(dec)
